@@ -386,7 +386,7 @@ type c15Replay struct {
 }
 
 func TestC15(t *testing.T) {
-	col := stats.New("C15", "rule sets with counted probes in conditions and actions; an un-cancelled baseline run counts the engine's ctx.Err() calls n, the listener events m and the probe invocations p; cancellation points are then enumerated, not timed: (a) a counting context whose Err()/Done() flip at the k-th Err() call, k = 1..n+1 (this reaches every check-point the engine has: before the first cycle, between two evaluations, on entry of a rule evaluation, on entry of a rule execution, between cycles), (b) cancel() called from inside the j-th listener event and from inside the q-th probe invocation (in a condition or in an action), (c) a context cancelled before the call, (d) an expired deadline; every point of (a)-(c) also with a context that additionally carries a deadline one hour in the future (WithTimeout, a cancellable child of it, or the counting context reporting one), and every point of (a)-(b) also with a context that ends at that point because its deadline passes (Err() = DeadlineExceeded), and with another knowledge base run to its end on the same GruleEngine value from inside the first probe invocation. All points in the thorough tier, up to 30 per case in quick. Oracle: the call returns an error matching the context's error (nil is tolerated only if nothing at all happened after the cancellation); the fact data at return equals the data captured at the cancellation point, except when the cancellation happened inside an action list, where it must equal the reference replay of a prefix of that rule's own actions; an already cancelled context produces no event. The ExecuteRuleEntry event is deliberately not counted as an action start (the engine emits it before the action's own context check). Non-trivial: cancellation landed after at least one firing and was reached. Distinct by rule text + state + point.",
+	col := stats.New("C15", "rule sets with counted probes in conditions and actions; an un-cancelled baseline run counts the engine's ctx.Err() calls n, the listener events m and the probe invocations p; cancellation points are then enumerated, not timed: (a) a counting context whose Err()/Done() flip at the k-th Err() call, k = 1..n+1 (this reaches every check-point the engine has: before the first cycle, between two evaluations, on entry of a rule evaluation, on entry of a rule execution, between cycles), (b) cancel() called from inside the j-th listener event and from inside the q-th probe invocation (in a condition or in an action), (c) a context cancelled before the call, (d) an expired deadline; every point of (a)-(c) also with a context that additionally carries a deadline one hour in the future (WithTimeout, a cancellable child of it, or the counting context reporting one), and every point of (a)-(b) also with a context that ends at that point because its deadline passes (Err() = DeadlineExceeded), and with another knowledge base run to its end on the same GruleEngine value from inside the first probe invocation. All points in the thorough tier, up to 30 per case in quick. Oracle: the call returns an error matching the context's error (nil is tolerated only if nothing at all happened after the cancellation); the fact data at return equals the data captured at the cancellation point, except when the cancellation happened inside an action list, where it must equal the reference replay of a prefix of that rule's own actions; an already cancelled context produces no event. The ExecuteRuleEntry event is deliberately not counted as an action start (the engine emits it before the action's own context check). Every point with a context of package context is run once more with a cause-carrying context (WithCancelCause / WithDeadlineCause / WithTimeoutCause, ended with an application cause). Non-trivial: cancellation landed after at least one firing and was reached. Distinct by rule text + state + point.",
 		"physical timing is replaced by logical cancellation points; a cancellation that arrives between two check-points is represented by the next check-point")
 	defer col.Flush()
 	rc := fullRuleCfg()
